@@ -96,6 +96,9 @@ def accOf (j : Json) : Option AccKind :=
   | some "graph" => some .graph
   | some "store_group" => some .storeGroup
   | some "groupby" => (str? (getD j "key")).map AccKind.groupBy
+  | some "mean_counts" => ((arr? (getD j "names")).bind (fun a => a.toList.mapM str?)).map AccKind.meanCounts
+  | some "vec_multi" => (nat? (getD j "k")).map AccKind.vecMulti
+  | some "sib_multi" => do some (.sibMulti (← str? (getD j "var")) (← int? (getD j "lo")) (← int? (getD j "hi")) (← nat? (getD j "k")))
   | some "count" => (str? (getD j "name")).map AccKind.count
   | some "mean" => do
     let sq := getD j "seq"
@@ -332,6 +335,14 @@ def histStep {σ : Type} (ops : Ops σ Skel Value) (ctr : σ → Nat) (ns : Nat)
     let key ← str? (getD j "key")
     match (h.filled[k]?).bind HItem.ctxTok with
     | some c => some { h with st := h.st.set c (setKey key (h.st c)) }
+    | none => some h
+  else if !(getD j "ff").isNull then do
+    -- the k-th filled value is filled again (the same object)
+    let k ← nat? (getD j "ff")
+    match h.filled[k]? with
+    | some x =>
+      let h' := histAct ops ctr ns h (.fill x) false
+      some { h' with filled := h.filled ++ [x] }
     | none => some h
   else if !(getD j "rf").isNull then do
     let k ← nat? (getD j "rf")
